@@ -30,18 +30,27 @@ use crate::context::snapshot::ServerContextInner;
 // This module uses multiple locks (RwLock and Mutex) for concurrent access to shared state.
 // To prevent deadlocks, **ALL code must acquire locks in the following order**:
 //
-// ## Global Lock Order (Low to High Priority):
-// 1. **diagnostic_tokens** (Mutex) - File diagnostic task tokens
-// 2. **workspace_diagnostic_token** (Mutex) - Workspace diagnostic task token
-// 3. **config_reload_token / reindex_token** (Mutex) - Debounced workspace tasks
-// 4. **reload_lock** (tokio::Mutex) - Serializes full workspace reloads
-// 5. **analysis** (RwLock - READ) - Read-only access to EmmyLuaAnalysis
-// 6. **workspace_manager** (RwLock - READ) - Read-only access to WorkspaceManager
-// 7. **workspace_manager** (RwLock - WRITE) - Exclusive access to WorkspaceManager
-// 8. **analysis** (RwLock - WRITE) - Exclusive access to EmmyLuaAnalysis
+// ## Global Lock Order (acquire top to bottom; one position per lock OBJECT, whatever the mode):
+// 1. **reload_lock** (tokio::Mutex) - Serializes full workspace reloads
+// 2. **analysis** (RwLock, read or write) - EmmyLuaAnalysis
+// 3. **workspace_manager** (RwLock, read or write) - WorkspaceManager
+// 4. **diagnostic_tokens** (Mutex) - File diagnostic task tokens
+// 5. **workspace_diagnostic_token** (Mutex) - Workspace diagnostic task token
+// 6. **cancellations** (Mutex) - Request cancellation tokens
+// 7. **response_manager** (Mutex) - Pending client responses
+//
+// tokio's RwLock is fair (FIFO): a reader that arrives behind a queued writer waits. An order
+// that ranks "analysis read" before and "analysis write" after the workspace_manager locks is
+// therefore NOT safe: task A holds analysis(read) and requests workspace_manager(read), task B
+// holds workspace_manager(read) and requests analysis(write), task C queues for
+// workspace_manager(write) in between - A waits behind C, C behind B, B behind A. The order
+// above has exactly one position per lock object, so:
+// - never acquire `analysis` (in any mode) while holding `workspace_manager`;
+// - never acquire a lock (in any mode) that the task already holds.
+// `config_reload_token` / `reindex_token` are std mutexes that are never held across an await.
 //
 // ## Lock Ordering Rules:
-// - **NEVER acquire a lower-priority lock while holding a higher-priority lock**
+// - **NEVER acquire a lock that is earlier in the list while holding a later one**
 // - **ALWAYS release locks in reverse order (LIFO) or use explicit scope blocks**
 // - **NEVER upgrade a read lock to a write lock (release read, then acquire write)**
 // - **Minimize lock scope**: only hold locks for the minimum necessary time
@@ -52,7 +61,7 @@ use crate::context::snapshot::ServerContextInner;
 //
 // ### ✅ CORRECT - Proper lock ordering:
 // ```rust
-// // Acquire workspace_manager read lock first, then release before analysis write
+// // Read workspace_manager first, release it, only then take the analysis write lock
 // let should_process = {
 //     let workspace_manager = context.workspace_manager().read().await;
 //     workspace_manager.is_workspace_file(&uri)
